@@ -78,6 +78,11 @@ DESIGN_REF = {k: f"DESIGN.md section 4, {k}" for k in META}
 READY = ["C01", "C02", "C03", "C04", "C05", "C06", "C07", "C08", "C09", "C10", "C11", "C12", "C13", "C14", "C15", "C16", "C17", "C18", "C19", "C20"]
 
 
+COV_FUZZ = {"C02", "C09", "C10", "C14", "C15", "C16", "C17", "C18"}
+for _pid in COV_FUZZ:
+    META[_pid]["technique"] += "; thorough tier adds coverage-guided fuzzing (atheris/libFuzzer) over the same structured cases (fuzz/hyp_fuzz.py)"
+
+
 def main():
     checks, na = [], []
     for pid, m in sorted(META.items()):
